@@ -230,6 +230,9 @@ def check_cancel_with_flag(vc, clause, evs):
 
 
 # =============================================================================================== D2
+_UNBOUND = object()
+
+
 @harness('D2', targets=['kopf._core.engines.daemons.stop_daemons', 'kopf._core.engines.daemons.stop_daemon'],
          props=['C09', 'C06', 'C20', 'C13', 'C03'],
          prop_clauses={'C13': ['flag_first', 'crash_free', 'one.flag_first', 'one.progress'], 'C03': ['delays', 'crash_free']},
@@ -329,7 +332,13 @@ def _d2_many(vc):
         g.prefix = Prefix(vc)
         for lst in g.lists:
             lst[:] = [g.prefix]
-        return {}
+        # per-daemon temporaries that happen to be bound at the loop head hold what an EARLIER daemon's iteration left in them:
+        # arbitrary values (a timer visited after a daemon must not inherit that daemon's cancellation backoff/timeout)
+        out = {}
+        for n in ('backoff', 'timeout', 'polling'):
+            if loc.get(n, _UNBOUND) is not _UNBOUND:
+                out[n] = vc.opt(f'{n} left by an earlier iteration', vc.real)
+        return out
 
     def element(loc, iterable):
         mode = iteration_mode(iterable, running)
